@@ -67,6 +67,9 @@ def where(fi, node=None):
     return '%s:%d' % (fi.file, (node.lineno if node is not None else fi.line))
 
 
+DEFAULT_TIME_LIMIT = {'quick': 90, 'thorough': 600}
+
+
 class Obligation(object):
     """run a thunk under all label assignments, apply `judge(value) -> (ok, detail)` on each
     normally returning path; raising paths must be in `allowed_raises` (set of exception names)."""
@@ -78,6 +81,10 @@ class Obligation(object):
     def run(self, fi, construct, thunk, judge, allowed_raises=(), opts=None, need_return=True, sample=None):
         ctx = self.ctx
         try:
+            # every theorem is bounded in time: code outside the exact fragment can make expressions grow without bound, and a check
+            # that does not come back decides nothing (override with opts['time_limit'])
+            opts = dict(opts or {})
+            opts.setdefault('time_limit', DEFAULT_TIME_LIMIT.get(ctx.tier, 300))
             paths = explore(ctx.model, thunk, opts)
         except Undecidable as e:
             return ctx.undecided(self.rule, fi.qualname, construct, 'outside the fragment: %s' % e, where=where(fi))
